@@ -350,9 +350,63 @@ def run_lemma_job(job, tier='quick'):
     return res
 
 
+def _prelude_digest():
+    h = hashlib.sha256()
+    for d in (PRELUDE, os.path.join(ROOT, 'vp')):
+        for fn in sorted(os.listdir(d)):
+            if fn.endswith(('.h', '.py')):
+                h.update(open(os.path.join(d, fn), 'rb').read())
+    return h.hexdigest()
+
+
+def cached(job, tier, key_material, compute):
+    """Memoise a job's verdict on the exact text that was verified: the C translation unit is re-extracted from
+    /repo on every run; only when it (and the prelude, the machinery, the job definition and the tier) is byte-identical
+    to an earlier run is that run's solver verdict reused.  A lock file makes concurrent checks share one computation."""
+    import fcntl
+    if os.environ.get('VP_NOCACHE'):
+        return compute()
+    h = hashlib.sha256()
+    h.update(key_material)
+    h.update(_prelude_digest().encode())
+    h.update(json.dumps({k: v for k, v in job.items() if k not in ('opts',)}, sort_keys=True, default=str).encode())
+    h.update(tier.encode())
+    key = h.hexdigest()[:32]
+    cdir = os.path.join(OUT, 'cache')
+    os.makedirs(cdir, exist_ok=True)
+    path = os.path.join(cdir, '%s_%s.json' % (job['name'], key))
+    lock = open(path + '.lock', 'w')
+    fcntl.flock(lock, fcntl.LOCK_EX)
+    try:
+        if os.path.exists(path):
+            try:
+                r = json.load(open(path))
+                r['notes'] = list(r.get('notes', [])) + ['verdict reused: identical extracted text was verified earlier in this sandbox (out/cache)']
+                r['cached'] = True
+                return r
+            except Exception:
+                pass
+        r = compute()
+        if r.get('status') in ('proved', 'failed'):
+            json.dump(r, open(path, 'w'))
+        return r
+    finally:
+        fcntl.flock(lock, fcntl.LOCK_UN)
+        lock.close()
+
+
 def run_job(job, tier='quick', log=print):
     if job.get('kind') == 'lemma':
-        return run_lemma_job(job, tier)
+        src = open(os.path.join(ROOT, job['source']), 'rb').read()
+        return cached(job, tier, src, lambda: run_lemma_job(job, tier))
+    try:
+        cfile, meta = build_tu(job)
+    except X.ExtractError as e:
+        return dict(job=job['name'], status='extract-error', obligations=[], notes=[str(e)], cmds=[], secs=0)
+    return cached(job, tier, open(cfile, 'rb').read(), lambda: run_job_uncached(job, tier, log))
+
+
+def run_job_uncached(job, tier='quick', log=print):
     t0 = time.time()
     res = dict(job=job['name'], status='error', obligations=[], notes=[], cmds=[], secs=0)
     try:
